@@ -456,3 +456,72 @@ def r8(R):
               '_transactionalUndoRecord')
     for v in vs:
         R.violation(v.node, v.message, g, v.path)
+
+
+# ------------------------------------------------------------------ C06.R9
+@rule('C06.R9', 'a record that is not the object\'s current one is undone '
+      'only on a path that established either that the current record '
+      'points at exactly the record being undone, or what the comparison of '
+      'the two data says', props=['C03'], min_instances=1)
+def r9(R):
+    cls = R.prog.cls(FS)
+    f = R.method(cls, '_transactionalUndoRecord')
+    g, b, F = R.cfg(f, cls, max_depth=0)
+    ps = [p for p in f.params if p != 'self']
+    undone_pos = ps[1]
+    # the local that receives the current record's data pointer: second
+    # element of what _undoDataInfo returns
+    ptrs = set()
+    for s in walk_local(f.node):
+        if isinstance(s, ast.Assign) and isinstance(s.value, ast.Call) and \
+                dotted(s.value.func) == ('self', '_undoDataInfo') and \
+                isinstance(s.targets[0], ast.Tuple) and \
+                len(s.targets[0].elts) >= 2 and isinstance(
+                    s.targets[0].elts[1], ast.Name):
+            ptrs.add(s.targets[0].elts[1].id)
+    R.require(ptrs, '_transactionalUndoRecord no longer asks _undoDataInfo '
+              'for the current record')
+    R.instance('FileStorage._transactionalUndoRecord', current_pointer=sorted(
+        ptrs))
+
+    def loaded(e, fr):
+        pv = provenance(e, fr, F)
+        return prov_has(pv, 'call', lambda p: p[-1] in (
+            '_loadBack_impl', '_undoDataInfo'))
+
+    def edge(node, st, lab, tgt):
+        if node.kind == 'test' and lab in ('T', 'F') and st == 'unchecked':
+            for e, truth in implied_atoms(node.ast, lab):
+                if not (isinstance(e, ast.Compare) and len(e.ops) == 1 and
+                        isinstance(e.ops[0], (ast.Eq, ast.NotEq))):
+                    continue
+                l, r = e.left, e.comparators[0]
+                names = {x.id for x in (l, r) if isinstance(x, ast.Name)}
+                if undone_pos in names and names & ptrs:
+                    if isinstance(e.ops[0], ast.Eq) == truth:
+                        return 'same-record'
+                elif not (names & ({undone_pos} | ptrs)) and \
+                        loaded(l, node.frame) and loaded(r, node.frame):
+                    return 'compared'
+        if lab in ('e', 'eb'):
+            return st
+        for op in F.ops(node):
+            if op.kind == 'call' and path_is(op.path,
+                                             ('self', '_undoDataInfo')):
+                return 'unchecked'
+        return st
+
+    def at(node, st):
+        if node.kind == 'return' and node.frame.parent is None and \
+                st == 'unchecked':
+            return Violation(
+                'a record that is not current is undone without knowing '
+                'that the current record points at it and without having '
+                'compared the data: inside a multi-undo (or after a later '
+                'commit) the later change is silently discarded')
+        return st
+
+    vs, stats = explore(g, None, at=at, edge=edge)
+    R.count(stats)
+    for v in vs:
+        R.violation(v.node, v.message, g, v.path)
